@@ -209,6 +209,44 @@ class TermDomain(Domain):
                 cands |= {c - 1, c, c + 1}
             if not any(all(ops[o](x, c) == b for o, c, b in cs) for x in cands):
                 return False
+        return TermDomain.feasible_divmod(store.get(("pc",), ()))
+
+    @staticmethod
+    def feasible_divmod(pcs):
+        """Quotient and remainder of one division: with q = X div D known to be 0 (possibly seen through a to_u8-like
+        narrowing) and the remainder X - D*q known to be zero, X is zero; X = R * k (k a non-zero constant) with R
+        known to be non-zero contradicts that.  Prunes only paths no execution takes."""
+        zero_q = set()
+        for p, b in pcs:
+            if b is True and isinstance(p, T) and p.op in ("Eq", "==") and len(p.args) == 2 \
+                    and isinstance(p.args[1], Const) and type(p.args[1].v) is int and p.args[1].v == 0:
+                q = p.args[0]
+                while isinstance(q, T) and q.op.startswith("to_") and len(q.args) == 1:
+                    q = q.args[0]
+                if isinstance(q, T) and q.op == "idiv" and len(q.args) == 2:
+                    zero_q.add(q)
+        if not zero_q:
+            return True
+        nonzero = {p.args[0] for p, b in pcs if b is False and isinstance(p, T) and p.op == "is_zero" and len(p.args) == 1}
+        for p, b in pcs:
+            if not (b is True and isinstance(p, T) and p.op == "is_zero" and len(p.args) == 1):
+                continue
+            e = p.args[0]
+            if not (isinstance(e, T) and e.op == "-" and len(e.args) == 2):
+                continue
+            x, sub = e.args
+            if not (isinstance(sub, T) and sub.op == "*" and len(sub.args) == 2):
+                continue
+            for d, q in (sub.args, sub.args[::-1]):
+                if q in zero_q and q.args == (x, d):
+                    # x is zero on this path
+                    if x in nonzero:
+                        return False
+                    if isinstance(x, T) and x.op == "*" and len(x.args) == 2:
+                        for r, k in (x.args, x.args[::-1]):
+                            kv = getattr(k, "v", None)
+                            if isinstance(k, (Const, K)) and type(kv) is not bool and kv not in (None, 0) and r in nonzero:
+                                return False
         return True
 
     def decide(self, store, p):
